@@ -345,18 +345,22 @@ Section C09_LU.
                              (c09_g_invert_tri T sub mul div zero one n (c09_sA st)))
     end.
 
-  (* determinant (n >= 4 branch).  fixed = false: the code as it stands
-         det = cond(nonsingularLanes, det, 0);  for i: det *= A[i][i];
-     fixed = true: the select applied after the product (fixes/C09-1.patch) *)
-  Definition c09_s_det (fixed doPivoting : bool) (n : nat) (A : list (list T)) : T :=
+  (* determinant (n >= 4 branch), densematrix.hh (since 1209091):
+         luDecomposition(A, ElimDet(det), nonsingularLanes, false, doPivoting);
+         for i: det *= A[i][i];   det = cond(nonsingularLanes, det, 0);  return det *)
+  Definition c09_s_det (doPivoting : bool) (n : nat) (A : list (list T)) : T :=
     match c09_s_lu false doPivoting n A [] with
     | C09_FMatrixError st => zero      (* unreachable: throwEarly = false never throws *)
     | C09_Ok st =>
-        if fixed then
-          let d := c09_g_detprod T mul zero n (c09_sA st) (c09_ssign st) in
-          if c09_sok st then d else zero
-        else
-          c09_g_detprod T mul zero n (c09_sA st) (if c09_sok st then c09_ssign st else zero)
+        let d := c09_g_detprod T mul zero n (c09_sA st) (c09_ssign st) in
+        if c09_sok st then d else zero
+    end.
+  (* history: the code before 1209091 applied the select BEFORE the product
+         det = cond(nonsingularLanes, det, 0);  for i: det *= A[i][i]; *)
+  Definition c09_s_det_before_fix (doPivoting : bool) (n : nat) (A : list (list T)) : T :=
+    match c09_s_lu false doPivoting n A [] with
+    | C09_FMatrixError st => zero
+    | C09_Ok st => c09_g_detprod T mul zero n (c09_sA st) (if c09_sok st then c09_ssign st else zero)
     end.
 
   (* ---------------- S-lane numbers: LoopSIMD<T,S> ---------------- *)
@@ -475,14 +479,18 @@ Section C09_LU.
                              (c09_g_invert_tri (list T) c09_vsub c09_vmul c09_vdiv c09_vzero c09_vone n (c09_vA st)))
     end.
 
-  Definition c09_v_det (fixed doPivoting : bool) (n : nat) (A : list (list (list T))) : list T :=
+  Definition c09_v_det (doPivoting : bool) (n : nat) (A : list (list (list T))) : list T :=
     match c09_v_lu false doPivoting n A [] with
     | C09_FMatrixError st => c09_vzero
     | C09_Ok st =>
-        if fixed then
-          c09_vcond zero (c09_vok st) (c09_g_detprod (list T) c09_vmul c09_vzero n (c09_vA st) (c09_vsign st)) c09_vzero
-        else
-          c09_g_detprod (list T) c09_vmul c09_vzero n (c09_vA st) (c09_vcond zero (c09_vok st) (c09_vsign st) c09_vzero)
+        c09_vcond zero (c09_vok st) (c09_g_detprod (list T) c09_vmul c09_vzero n (c09_vA st) (c09_vsign st)) c09_vzero
+    end.
+  (* history (before 1209091) *)
+  Definition c09_v_det_before_fix (doPivoting : bool) (n : nat) (A : list (list (list T))) : list T :=
+    match c09_v_lu false doPivoting n A [] with
+    | C09_FMatrixError st => c09_vzero
+    | C09_Ok st =>
+        c09_g_detprod (list T) c09_vmul c09_vzero n (c09_vA st) (c09_vcond zero (c09_vok st) (c09_vsign st) c09_vzero)
     end.
 
   (* deep observation for the evidence: per lane, the pivot row chosen at every step and the step at which
@@ -541,14 +549,18 @@ Section C09_Norms.
   Definition c09_s_infnorm := c09_g_infnorm T U absr uadd umul udiv c09_umax uzero uone.
   Definition c09_nU : U := absr zero.
   Definition c09_v_mv := c09_g_mv (list T) (c09_vmap2 W zero zero add) (c09_vmap2 W zero zero mul) (c09_vbcast W zero).
-  (* hasNaN = HasNaN<LoopSIMD<T,S>>: false as the code stands, HasNaN<T> with fixes/C09-2.patch *)
+  (* hasNaN = HasNaN<T>; loop.hh (since 1037165) forwards HasNaN<LoopSIMD<T,S,A>> to HasNaN<T>, so the S-lane type
+     selects the same variant of infinity_norm as its scalar type *)
   Definition c09_v_infnorm := c09_g_infnorm (list T) (list U) (c09_vmap W zero absr)
       (c09_vmap2 W c09_nU c09_nU uadd) (c09_vmap2 W c09_nU c09_nU umul) (c09_vmap2 W c09_nU c09_nU udiv)
       (c09_vmap2 W c09_nU c09_nU c09_umax) (c09_vbcast W uzero) (c09_vbcast W uone).
+  (* history (before 1037165): HasNaN<LoopSIMD<...>> was false whatever T, the S-lane type took the plain variant *)
+  Definition c09_v_infnorm_before_fix := c09_v_infnorm false.
 End C09_Norms.
 
-(* the row swap of luDecomposition as the literal loops  for j: for l: swap(lane(l, A[i][j]), lane(l, A[lane(l, imax)][j]))
-   over single lanes of single entries; C09_Proofs_Swap.v shows that they compute the gather c09_v_swaprows used above *)
+(* the per-lane swaps of luDecomposition / Elim::swap / invert as the literal loops over single lanes of single entries, e.g.
+   for j: for l: swap(lane(l, A[i][j]), lane(l, A[lane(l, imax)][j]));  C09_Proofs_Swap.v shows that they compute the gathers
+   c09_v_swaprows, c09_v_swapvec, c09_v_unperm_step used above *)
 Section C09_SwapLoops.
   Variable T : Type.
   Variable zero : T.
@@ -562,4 +574,23 @@ Section C09_SwapLoops.
     c09_set3 n (c09_set3 n A r1 c l y) r2 c l x.
   Definition c09_v_swaprows_loops (n : nat) (A : list (list (list T))) (i : nat) (imax : list nat) : list (list (list T)) :=
     fold_left (fun A j => fold_left (fun A l => c09_swap_cell n A i (nth l imax 0) j l) (seq 0 W) A) (seq 0 n) A.
+
+  (* Elim<V>::swap:  for l: swap(lane(l, rhs[i]), lane(l, rhs[lane(l, j)])) *)
+  Definition c09_get2 (x : list (list T)) (r l : nat) : T := nth l (nth r x []) zero.
+  Definition c09_set2 (n : nat) (x : list (list T)) (r l : nat) (v : T) : list (list T) :=
+    c09_tab n (fun r' => c09_tab W (fun l' => if (r' =? r) && (l' =? l) then v else c09_get2 x r' l')).
+  Definition c09_swap_cell2 (n : nat) (x : list (list T)) (r1 r2 l : nat) : list (list T) :=
+    let a := c09_get2 x r1 l in let b := c09_get2 x r2 l in c09_set2 n (c09_set2 n x r1 l b) r2 l a.
+  Definition c09_v_swapvec_loops (n : nat) (x : list (list T)) (i : nat) (imax : list nat) : list (list T) :=
+    fold_left (fun x l => c09_swap_cell2 n x i (nth l imax 0) l) (seq 0 W) x.
+
+  (* invert, column un-permutation, body of the loop over i (densematrix.hh:1109-1116):
+       for l: pi = lane(l, pivot[i]); if(i != pi) for j: swap(lane(l, M[j][pi]), lane(l, M[j][i])) *)
+  Definition c09_swap_cols_cell (n : nat) (M : list (list (list T))) (j c1 c2 l : nat) : list (list (list T)) :=
+    let x := c09_get3 M j c1 l in let y := c09_get3 M j c2 l in
+    c09_set3 n (c09_set3 n M j c1 l y) j c2 l x.
+  Definition c09_v_unperm_step_loops (n : nat) (M : list (list (list T))) (i : nat) (pv : list nat) : list (list (list T)) :=
+    fold_left (fun M l => let p := nth l pv 0 in
+                          if i =? p then M
+                          else fold_left (fun M j => c09_swap_cols_cell n M j p i l) (seq 0 n) M) (seq 0 W) M.
 End C09_SwapLoops.
